@@ -22,6 +22,8 @@ OpenOps == 10
 Ceil4K(size) == (size + 4095) \div 4096
 OpsBound(size) == 32 + 2 * Ceil4K(size)
 
-(* time the read may still consume after the cancellation, in microseconds *)
+(* CPU time the reading thread may still consume after the cancellation, in microseconds.  This bounds the work   *)
+(* of a unit that touches no input at all (scanning or parsing one huge buffered object), which the operation     *)
+(* count cannot see; it is judged for timer cancellations and for cancellations after the j-th operation alike.   *)
 TimeBoundUs(fullus) == IF fullus \div 4 > 100000 THEN fullus \div 4 ELSE 100000
 =============================================================================
